@@ -92,7 +92,9 @@ class SymStr:
     def __hash__(self):
         if self.concrete():
             return hash(self.to_str())
-        raise E.ModelGap("hash of a symbolic string")
+        # symbolic strings are used as dictionary keys only where distinct objects are known to be
+        # distinct strings (label names assumed pairwise different): identity hash
+        return id(self)
 
     def equals(self, o) -> bool:
         o = SymStr.of(o) if isinstance(o, (str, SymStr)) else None
@@ -305,3 +307,93 @@ def vf_isinstance_str(obj, cls):
             return True
         return False
     return builtins.isinstance(obj, cls)
+
+
+# -------------------------------------------------------------------------------------------------
+# a proxy for the `re` module, for the one pattern shape the code under analysis builds:
+#     r"\b{}\b".format(re.escape(label))
+# re.escape(SymStr) yields a marker (a real str, because str.format insists on one) that refers to the
+# symbolic literal; search / sub interpret "\b<marker>\b" over SymStr subjects with Python's meaning of
+# \b (between a word character [A-Za-z0-9_] and a non-word character or the string edge).
+
+WORD = set(range(ord("a"), ord("z") + 1)) | set(range(ord("A"), ord("Z") + 1)) | set(range(ord("0"), ord("9") + 1)) | {ord("_")}
+
+
+class ReProxy:
+    def __init__(self):
+        import re as _re
+
+        self._re = _re
+        self._lits = {}
+
+    def escape(self, s):
+        if isinstance(s, SymStr):
+            k = len(self._lits)
+            self._lits[k] = s
+            return f"\x00LIT{k}\x00"
+        return self._re.escape(s)
+
+    def _parse(self, pattern):
+        m = self._re.fullmatch(r"(\\b)?\x00LIT(\d+)\x00(\\b)?", pattern)
+        if not m:
+            return None
+        return bool(m.group(1)), self._lits[int(m.group(2))], bool(m.group(3))
+
+    @staticmethod
+    def _isword(subject, i) -> bool:
+        if i < 0 or i >= len(subject.c):
+            return False
+        return cin(subject.c[i], WORD)
+
+    def _match_at(self, subject, i, lb, lit, rb) -> bool:
+        n = len(lit.c)
+        if n == 0 or i + n > len(subject.c):
+            return False
+        if not subject._match_at(i, lit.c):
+            return False
+        if lb and self._isword(subject, i - 1) == self._isword(subject, i):
+            return False
+        if rb and self._isword(subject, i + n - 1) == self._isword(subject, i + n):
+            return False
+        return True
+
+    def search(self, pattern, subject, *a):
+        p = self._parse(pattern) if isinstance(pattern, str) else None
+        if p is None or not isinstance(subject, SymStr):
+            if isinstance(subject, SymStr):
+                if subject.concrete() and isinstance(pattern, str) and "\x00" not in pattern:
+                    return self._re.search(pattern, subject.to_str(), *a)
+                raise E.ModelGap("regular expression outside the modelled shape")
+            if p is not None:
+                subject = SymStr.of(subject)
+            else:
+                return self._re.search(pattern, subject, *a)
+        lb, lit, rb = p
+        for i in range(len(subject.c) - len(lit.c) + 1):
+            if self._match_at(subject, i, lb, lit, rb):
+                return (i, i + len(lit.c))
+        return None
+
+    def sub(self, pattern, repl, subject, count=0):
+        p = self._parse(pattern) if isinstance(pattern, str) else None
+        if p is None:
+            if isinstance(subject, SymStr):
+                raise E.ModelGap("regular expression outside the modelled shape")
+            return self._re.sub(pattern, repl, subject, count)
+        subject = SymStr.of(subject)
+        lb, lit, rb = p
+        out = []
+        i = 0
+        n = len(lit.c)
+        r = SymStr.of(repl).c
+        while i < len(subject.c):
+            if i + n <= len(subject.c) and self._match_at(subject, i, lb, lit, rb):
+                out += r
+                i += n
+            else:
+                out.append(subject.c[i])
+                i += 1
+        return SymStr(out)
+
+    def __getattr__(self, name):
+        return getattr(self._re, name)
